@@ -303,3 +303,63 @@ def run(ctx):  # noqa: F811
     _run_c19(ctx)
     r19_3(ctx, ctx.model)
     r19_4(ctx, ctx.model)
+
+
+def r19_5(ctx, m):
+    """the frozen / liquid split follows the pytree leaf order of the insert mask"""
+    ctx.rule("R19.5", "_parse_point_estimates (shared by kl_minimize(constants=...) and LikelihoodPartial): frozen and liquid leaves are "
+                      "collected by ONE partition pass over zip(tree_leaves(primals), tree_leaves(mask)), so their order is the leaf "
+                      "order in which partial_insert_and_remove re-inserts them; a frozen tuple collected in the order of the "
+                      "user-given key names permutes the constants whenever that order differs from the sorted leaf order", floor=2)
+    fi = m.func("nifty.re.likelihood", "_parse_point_estimates", required=False)
+    if fi is None:
+        ctx.error("R19.5: _parse_point_estimates missing")
+        return
+    ctx.saw_func(fi)
+    prim, pe = fi.params()[1], fi.params()[0]
+    loops = [lp for lp in walk_no_nested(fi.node) if isinstance(lp, ast.For) and isinstance(lp.iter, ast.Call) and src(lp.iter.func) == "zip"
+             and [src(a) for a in lp.iter.args] == [f"tree_leaves({prim})", f"tree_leaves({pe})"]]
+    key = f"{fi.key}::partition pass over the leaves of primals and mask"
+    if len(loops) != 1 or not isinstance(loops[0].target, ast.Tuple):
+        ctx.und("R19.5", key, f"{len(loops)} partition loops", fi)
+        return
+    lp = loops[0]
+    pv, mv = [src(e) for e in lp.target.elts]
+    frozen_l = liquid_l = None
+    for st in lp.body:
+        from ..util import strip_not
+        core, pol = strip_not(st.test) if isinstance(st, ast.If) else (None, True)
+        if isinstance(st, ast.If) and src(core) == mv:
+            for b, tag in ((st.body, "f" if pol else "l"), (st.orelse, "l" if pol else "f")):
+                for s_ in b:
+                    if isinstance(s_, ast.Expr) and isinstance(s_.value, ast.Call) and call_name(s_.value) == "append" and [src(a) for a in s_.value.args] == [pv]:
+                        if tag == "f":
+                            frozen_l = src(s_.value.func.value)
+                        else:
+                            liquid_l = src(s_.value.func.value)
+    ctx.check("R19.5", key, True if (frozen_l is not None and liquid_l is not None and frozen_l != liquid_l) else None, f"frozen -> {frozen_l}, liquid -> {liquid_l}", fi, lp)
+    if frozen_l is None:
+        return
+    for r in walk_no_nested(fi.node):
+        if not (isinstance(r, ast.Return) and isinstance(r.value, ast.Tuple) and len(r.value.elts) == 3):
+            continue
+        fz = r.value.elts[2]
+        key = f"{fi.key}::`{short(r, 60)}` returns the frozen leaves of the partition pass"
+        if isinstance(fz, ast.Name) and fz.id == frozen_l and r.lineno > lp.lineno:
+            ctx.ok("R19.5", key, None, fi, r)
+            continue
+        # how is the returned frozen container built?
+        defs = [st for st in walk_no_nested(fi.node) if isinstance(st, ast.Assign) and isinstance(fz, ast.Name) and src(st.targets[0]) == fz.id and st.lineno < r.lineno]
+        t = " ; ".join(src(d.value) for d in defs) if defs else src(fz)
+        if r.lineno < lp.lineno or (defs and all(frozen_l not in src(d.value) for d in defs)):
+            ctx.bad("R19.5", key, f"frozen leaves built as `{t}` without the partition pass: their order is not the leaf order of the mask", fi, r)
+        else:
+            ctx.und("R19.5", key, f"frozen container `{t}` not recognised", fi, r)
+
+
+_run_c19b = run
+
+
+def run(ctx):  # noqa: F811
+    _run_c19b(ctx)
+    r19_5(ctx, ctx.model)
